@@ -219,11 +219,10 @@ PREFIX = {"sse": "sse", "hs-json": "json", "hs-proto": "proto"}
 
 
 def cause_of(t, msgs):
-    if t != "hs-proto":
-        if any(b"\r" in m for m in msgs) and not any(b"\n" in m for m in msgs):
-            return "raw-CR-in-frame"
-        if any(b"\n" in m for m in msgs):
-            return "raw-LF-in-frame"
+    if t != "hs-proto" and any(b"\n" in m for m in msgs):
+        return "raw-LF-in-frame"
+    if t == "sse" and any(b"\r" in m for m in msgs):
+        return "raw-CR-in-frame"
     return "framing"
 
 
